@@ -31,8 +31,8 @@ EXPLANATION = (
 EXPLANATION_ADD = ' Additions: (SIB-asn-boundary) Display and FromStr of Asn use the same decimal-notation boundary 2^32-1; (SPLIT-both) both halves of every split_once are examined; (SPLIT-exhaust) a split iterator read with explicit next() calls accounts for the rest (splitn(k) with k reads, or whole-iterator consumption).'
 EXPLANATION = EXPLANATION + EXPLANATION_ADD
 RESIDUAL = [
-    "exact acceptance: a string is accepted only if it is the displayed form of some value (language equality over all strings)",
-    "display/parse round trip of every value",
+    "exact acceptance: a string is accepted only if it is the displayed form of some value (language equality over all strings) — decided only through the necessary conditions SPLIT-both / SPLIT-exhaust (no part of the input goes unexamined)",
+    "display/parse round trip of every value — decided only for the AS-number notation boundary (SIB-asn-boundary)",
 ]
 ASSUMPTIONS = [
     "core::str / core::net / u64::from_str_radix parsing routines do not panic on any input (std contract)",
